@@ -249,11 +249,26 @@ func checkInstance(g *gg.Graph, q []uint64, input *gg.Val, log []gg.Event, resul
 				routed = true
 			}
 		}
-		if judged && !routed {
-			why := "none of its control predecessors ran and routed to it"
-			if !hasCtrl {
-				why = "it has no control predecessor"
+		if !hasCtrl {
+			// no control predecessor: an orphan never runs; a Workflow node with data-only inputs exclusively
+			// (outside the documented domain) is triggered by its data predecessors: all of them ran
+			nd := 0
+			for j := range g.Nodes {
+				p := &g.Nodes[j]
+				if !isDataPred(p, t.Key) {
+					continue
+				}
+				nd++
+				if known(p) && !io.ran(p) {
+					return fmt.Sprintf("instance %v: node %d (data-only inputs) executed although its data predecessor %d did not run", q, t.Key, p.Key), "dag-untriggered"
+				}
 			}
+			if nd == 0 {
+				return fmt.Sprintf("instance %v: node %d executed although it has no predecessor", q, t.Key), "dag-untriggered"
+			}
+		}
+		if hasCtrl && judged && !routed {
+			why := "none of its control predecessors ran and routed to it"
 			return fmt.Sprintf("instance %v: node %d executed although %s", q, t.Key, why), "dag-untriggered"
 		}
 		exp, ok, mergeOK := io.expectedInput(t.Key)
